@@ -20,7 +20,7 @@ NPT = {'f32': np.float32, 'f64': np.float64, 'f80': np.longdouble}
 FSIZE = {'f32': 4, 'f64': 8, 'f80': 16}
 
 CLANG_FLAGS = ['-std=c++17', '-O1', '-ffp-contract=off', '-fno-vectorize', '-fno-slp-vectorize',
-               '-fno-unroll-loops', '-S', '-emit-llvm', '-w']
+               '-fno-unroll-loops', '-S', '-emit-llvm', '-w', '-Wno-c++11-narrowing']
 GXX_FLAGS = ['-std=c++17', '-O0', '-ffp-contract=off', '-fno-fast-math', '-fPIC', '-shared', '-w']
 
 _scratch = []
